@@ -187,7 +187,7 @@ func (w *world) build() {
 	if w.st == S3 {
 		k := keyIndex(idA)
 		open := (&demonwire.W{}).I32(agent.DEMON_COMMAND_FS_DOWNLOAD).I32(0).I32(fileOpen).I64(4096).WStr(`C:\Users\x\secret.txt`).B
-		bof := (&demonwire.W{}).I32(agent.CALLBACK_FILE).Bytes(cat(be32(fileBof), be32(1024), []byte("bof.bin"))).B
+		bof := (&demonwire.W{}).I32(agent.CALLBACK_FILE).Bytes(cat(be32(fileBof), be32(0), []byte("bof.bin"))).B // announced size 0: an empty file is a file (and a divisor)
 		w.post(demonwire.CallbacksOnly(idA, seam.Key(k), seam.IV(k),
 			demonwire.Sub{Cmd: agent.COMMAND_FS, ReqID: reqR1, Body: open},
 			demonwire.Sub{Cmd: agent.BEACON_OUTPUT, ReqID: reqR1, Body: bof}))
